@@ -77,7 +77,15 @@ func c07NeedsQuote(name string) bool {
 			return true
 		}
 	}
-	return false
+	// letters and digits only: Excel still wants quotes for a leading digit, a name that reads as a
+	// cell reference, a boolean
+	if name[0] >= '0' && name[0] <= '9' {
+		return true
+	}
+	if _, _, err := xl.CellNameToCoordinates(name); err == nil {
+		return true
+	}
+	return strings.EqualFold(name, "TRUE") || strings.EqualFold(name, "FALSE")
 }
 
 func c07Prefix(sheet string, quoted bool) string {
@@ -767,7 +775,7 @@ func mustShift(c *c07Case) *c07Node {
 
 // ---------------------------------------------------------------- generator
 
-var c07Sheets = []string{"Sheet1", "Data2", "My Sheet", "O'Brien", "Sheet_3", "2024", "Büro"}
+var c07Sheets = []string{"Sheet1", "Data2", "My Sheet", "O'Brien", "Sheet_3", "2024", "Büro", "FY24"}
 
 var c07Cols = []int{1, 2, 3, 4, 5, 8, 25, 26, 27, 28, 52, 53, 702, 703, 704, 16383, 16384}
 var c07Rows = []int{1, 2, 3, 4, 5, 9, 10, 11, 12, 99, 100, 101, 1048575, 1048576}
@@ -1029,6 +1037,8 @@ func c07Witnesses(r *Run, f *xl.File) {
 		{&c07Node{kind: "bin", s: "+", kids: []*c07Node{sum(&c07Node{kind: "array", s: "{1,2;3,4}"}), ref("", false, 0, 1, 3, 0, 0)}}, "Sheet1", c07Edit{true, 3, 1}},
 		{ref("a!b", false, 0, 1, 3, 0, 0), "Sheet1", c07Edit{false, 1, 2}},
 		{ref("2024", false, 0, 2, 2, 0, 0), "Sheet1", c07Edit{true, 1, 1}},
+		{ref("FY24", false, 0, 2, 2, 0, 0), "Sheet1", c07Edit{true, 1, 1}},
+		{ref("true", false, 1, 2, 2, 3, 4), "Sheet1", c07Edit{false, 1, 1}},
 		{sum(ref("", false, 1, 1, 1, 1, 10)), "Sheet1", c07Edit{true, 5, -1}},
 		{sum(ref("", false, 1, 1, 3, 1, 5)), "Sheet1", c07Edit{true, 3, -1}},
 		{ref("", false, 0, 16384, 3, 0, 0), "Sheet1", c07Edit{false, 1, 1}},
